@@ -437,6 +437,10 @@ func validateRequired(v interface{}, name string) error {
 	if val.Kind() == reflect.Ptr && val.IsNil() {
 		return ErrRequired
 	}
+	// a default behind a pointer is looked at like the value itself (as
+	// nonzero, positive, min and max do)
+	v = validatorValue(v)
+	val = reflect.ValueOf(v)
 	if isInt(val.Kind()) || isUint(val.Kind()) || isFloat(val.Kind()) {
 		if err := validateNonZero(v, name); err != nil {
 			return ErrRequired
